@@ -28,6 +28,7 @@ ASSUMPTIONS = [
 ]
 FLOORS = {"two-vendors+repeat": 0.3}
 
+OWN_TIME_LIMIT = True    # jobs are timed one by one below (the runner's per-case limit is not used)
 JOB_TIME_LIMIT = 15.0   # seconds per job (normal jobs take milliseconds)
 N_SYN = {"quick": 60, "thorough": 300}
 N_CORPUS = {"quick": 90, "thorough": 192}
